@@ -243,6 +243,36 @@ func counterCandidates(fns []*ssa.Function) []*types.Var {
 			}
 		}
 	}
+	// the decrement may sit in a callee of the deferred function (helpers of helpers): two levels of static callees
+	for level := 0; level < 2; level++ {
+		add := map[*ssa.Function]map[*types.Var]bool{}
+		for _, fn := range fns {
+			for _, b := range fn.Blocks {
+				for _, ins := range b.Instrs {
+					c, ok := ins.(*ssa.Call)
+					if !ok {
+						continue
+					}
+					if sc := c.Call.StaticCallee(); sc != nil && len(decIn[sc]) > 0 {
+						if add[fn] == nil {
+							add[fn] = map[*types.Var]bool{}
+						}
+						for f := range decIn[sc] {
+							add[fn][f] = true
+						}
+					}
+				}
+			}
+		}
+		for fn, fs := range add {
+			if decIn[fn] == nil {
+				decIn[fn] = map[*types.Var]bool{}
+			}
+			for f := range fs {
+				decIn[fn][f] = true
+			}
+		}
+	}
 	for _, fn := range fns {
 		for _, b := range fn.Blocks {
 			for _, ins := range b.Instrs {
